@@ -43,6 +43,11 @@ COMBOS = [(False, False), (False, True), (True, False), (True, True)]      # (ke
 POISON = '~poison~'
 FLAVORS = ('wsgi', 'asgi', 'ws')
 DIRECT = ('direct_wsgi', 'direct_asgi')
+# request objects that must follow the documented DEFAULT option setting (keep_blank_qs_values=True,
+# auto_parse_qs_csv=False, stock JSON handler) whatever was configured on OTHER objects before:
+#   noopt_*  public constructors called without options; afterwards that request's own req.options is reconfigured
+#   app2_*   a second App whose req_options nobody touches, while the first App is reconfigured all the time
+DEFAULTED = ('noopt_wsgi', 'noopt_asgi', 'app2_wsgi', 'app2_asgi', 'app2_ws')
 
 # Proposed known_findings.json keys (genuine defects met on the unchanged tree, see the final report).
 K_EMPTY_LIST = 'csv-all-blank-value-empty-list-indexerror'
@@ -296,15 +301,28 @@ class Harness:
         self.probe['ws'], self.app['ws'] = self.probe['asgi'], self.app['asgi']
         self.seq = 0
         self.last_jcfg = {'wsgi': 'stock', 'asgi': 'stock'}
+        self.probe2 = {'wsgi': Probe(), 'asgi': ProbeAsync()}
+        self.app2 = {'wsgi': falcon.App(), 'asgi': falcon.asgi.App()}
+        for f in ('wsgi', 'asgi'):
+            self.app2[f].add_route('/q', self.probe2[f])
+        self.last_primary = {'wsgi': None, 'asgi': None}    # (kb, csv, jcfg) last configured on the first apps
+        self.last_leak = {'noopt_wsgi': None, 'noopt_asgi': None}
 
-    def run(self, flavor, query, kb, csv, program, has_names, drop_key=False, jcfg='stock'):
+    def run(self, flavor, query, kb, csv, program, has_names, drop_key=False, jcfg='stock', leak=None):
         if flavor.startswith('direct_'):
             return self.run_direct(flavor, query, kb, csv, program, has_names, jcfg)
-        app, probe = self.app[flavor], self.probe[flavor]
-        configure_json(app.req_options, jcfg)
-        self.last_jcfg[flavor if flavor == 'wsgi' else 'asgi'] = jcfg
-        app.req_options.keep_blank_qs_values = kb
-        app.req_options.auto_parse_qs_csv = csv
+        if flavor.startswith('noopt_'):
+            return self.run_direct(flavor, query, kb, csv, program, has_names, jcfg, leak)
+        if flavor.startswith('app2_'):
+            flavor = flavor[5:]
+            app, probe = self.app2['wsgi' if flavor == 'wsgi' else 'asgi'], self.probe2['wsgi' if flavor == 'wsgi' else 'asgi']
+        else:
+            app, probe = self.app[flavor], self.probe[flavor]
+            configure_json(app.req_options, jcfg)
+            self.last_jcfg[flavor if flavor == 'wsgi' else 'asgi'] = jcfg
+            self.last_primary[flavor if flavor == 'wsgi' else 'asgi'] = (kb, csv, jcfg)
+            app.req_options.keep_blank_qs_values = kb
+            app.req_options.auto_parse_qs_csv = csv
         probe.program, probe.has_names, probe.out = program, has_names, None
         if flavor == 'wsgi':
             env = W.make_environ('GET', '/q', query)
@@ -322,27 +340,38 @@ class Harness:
         return res, probe.out, failed
 
 
-    def run_direct(self, flavor, query, kb, csv, program, has_names, jcfg='stock'):
-        """Request objects built through the public constructors with an explicit RequestOptions."""
-        opts = falcon.RequestOptions()
-        configure_json(opts, jcfg)
-        opts.keep_blank_qs_values = kb
-        opts.auto_parse_qs_csv = csv
+    def run_direct(self, flavor, query, kb, csv, program, has_names, jcfg='stock', leak=None):
+        """Request objects built through the public constructors: with an explicit RequestOptions (direct_*) or
+        without options (noopt_*: documented defaults; afterwards this request's own options are reconfigured
+        to `leak`, which must not reach any later request)."""
+        kwargs = {}
+        if flavor.startswith('direct_'):
+            opts = falcon.RequestOptions()
+            configure_json(opts, jcfg)
+            opts.keep_blank_qs_values = kb
+            opts.auto_parse_qs_csv = csv
+            kwargs['options'] = opts
         probe = self.probe['wsgi']
         probe.program, probe.has_names, probe.out = program, has_names, None
         failed = None
+        req = None
         try:
-            if flavor == 'direct_wsgi':
-                req = falcon.Request(W.make_environ('GET', '/q', query), options=opts)
+            if flavor.endswith('wsgi'):
+                req = falcon.Request(W.make_environ('GET', '/q', query), **kwargs)
             else:
                 async def receive():
                     return {'type': 'http.disconnect'}
-                req = falcon.asgi.Request(A.make_scope('GET', '/q', query), receive, options=opts)
+                req = falcon.asgi.Request(A.make_scope('GET', '/q', query), receive, **kwargs)
             run_program(req, probe)
         except falcon.HTTPBadRequest:
             pass                        # a propagating op: recorded by run_program
         except Exception as ex:  # noqa
             failed = ex
+        if leak is not None and req is not None:
+            # what an application may do with the public req.options attribute of ITS request
+            req.options.keep_blank_qs_values, req.options.auto_parse_qs_csv = leak[0], leak[1]
+            configure_json(req.options, leak[2])
+            self.last_leak[flavor] = list(leak)
         return _NoResponse(), probe.out, failed
 
 
@@ -412,7 +441,17 @@ def check_request(rec, flavor, query, kb, csv, program, extra_has=(), drop_key=F
     if jcfg is None:
         jcfg = JCFGS[H.seq % len(JCFGS)]
         H.seq += 1
-    prev_jcfg = H.last_jcfg.get(flavor if flavor == 'wsgi' else 'asgi') if not flavor.startswith('direct_') else None
+    prev_jcfg = H.last_jcfg.get(flavor if flavor == 'wsgi' else 'asgi') if flavor in FLAVORS else None
+    leak = prev_leak = None
+    if flavor in DEFAULTED:
+        # kb/csv/jcfg are what gets configured elsewhere; this request must show the documented defaults
+        leak = (kb, csv, jcfg)
+        kb, csv, jcfg = True, False, 'stock'
+        if flavor.startswith('noopt_'):
+            prev_leak = H.last_leak[flavor]
+        else:
+            prev_leak = H.last_primary['wsgi' if flavor == 'app2_wsgi' else 'asgi']
+            prev_leak = list(prev_leak) if prev_leak else None
     if isinstance(query, bytes):
         try:
             qs = query.decode('utf-8')
@@ -423,6 +462,8 @@ def check_request(rec, flavor, query, kb, csv, program, extra_has=(), drop_key=F
     wire = query.encode('utf-8') if (not flavor.endswith('wsgi') and isinstance(query, str)) else query
     wit = {'case': 'request', 'flavor': flavor, 'kb': kb, 'csv': csv, 'program': program,
            'drop_key': drop_key, 'mode': rec.mode, 'jcfg': jcfg, 'prev_jcfg': prev_jcfg}
+    if leak is not None:
+        wit.update(leak=list(leak), prev_leak=prev_leak)
     if isinstance(query, bytes):
         wit['query_hex'] = query.hex()
     else:
@@ -432,8 +473,10 @@ def check_request(rec, flavor, query, kb, csv, program, extra_has=(), drop_key=F
     ref = MU.ref_parse_qs(qs, kb, csv) if qs else {}
     amb = M.all_blank_csv_names(qs, kb, csv) if qs else set()
     has_names = list(dict.fromkeys(list(ref) + [op['name'] for op in program] + list(extra_has) + ['nope', 'A']))
-    res, out, failed = H.run(flavor, wire, kb, csv, program, has_names, drop_key, jcfg)
+    res, out, failed = H.run(flavor, wire, kb, csv, program, has_names, drop_key, jcfg, leak)
     rec.count('mon.request.' + flavor)
+    if prev_leak is not None and tuple(prev_leak[:2]) != (True, False):
+        rec.count('cls.defaults_after_foreign_reconfiguration')
     rec.count('cls.json_handler_' + jcfg)
     if prev_jcfg is not None and prev_jcfg != jcfg:
         rec.count('cls.json_handler_reconfigured')
@@ -910,7 +953,7 @@ def generic_program(ref, k):
 def request_both(rec, qs, kb, csv, prog, extra_has=(), direct=False):
     """Every way a request object comes into being: WSGI, ASGI HTTP, ASGI WebSocket handshake
     (+ the public constructors when direct=True)."""
-    for flavor in (FLAVORS + DIRECT if direct else FLAVORS):
+    for flavor in (FLAVORS + DIRECT + DEFAULTED if direct else FLAVORS):
         if flavor.endswith('wsgi') and any(ord(c) > 255 for c in qs):
             rec.count('skip.wsgi_non_latin1')
             continue
@@ -926,6 +969,70 @@ FIXED_STRINGS = ['a=1;b=2', 'a=1&amp;b=2', 'a=1\nb=2', 'a[]=1&a[]=2', 'a=1#b=2',
                  'a=%F0%9F%98%80', 'a=%ED%A0%80', 'a=%C0%AF', 'a=%00&%00=b', 'a=\x00', 'é=é', '%C3%A9=é', 'a=+&+=a', 'a=%2B+%20',
                  'a=1&a=2&a=3&a=4&a=5&a=6&a=7&a=8&a=9', 'a=' + '%41' * 7, 'a=' + '%41' * 8, 'a=' + '%4' * 9, 'a=' + '%' * 9,
                  '=' * 9, '&' * 9, ',' * 9, 'a=' + ',' * 9, 'a=' + ',x' * 9, 'a,b=1', 'a%2Cb=1', 'a,b=1,2']
+
+def threaded_round(rec, queries, combos, iterations=30):
+    """Request threads parse different query strings at the same time (tiny switch interval): every thread
+    must get the reference reading of ITS query string.  Returns True when a violation was reported."""
+    import sys
+    import threading
+    n = len(queries)
+    wants = [MU.ref_parse_qs(q, kb, csv) for q, (kb, csv) in zip(queries, combos)]
+    bad = []
+    barrier = threading.Barrier(n)
+
+    def work(i):
+        kb, csv = combos[i]
+        opts = falcon.RequestOptions()
+        opts.keep_blank_qs_values, opts.auto_parse_qs_csv = kb, csv
+        barrier.wait()
+        for j in range(iterations):
+            try:
+                if j % 2:
+                    got = falcon.Request(W.make_environ('GET', '/q', queries[i]), options=opts).params
+                else:
+                    got = uri.parse_query_string(queries[i], keep_blank=kb, csv=csv)
+            except Exception as ex:  # noqa
+                got = ('raised', repr(ex))
+            if got != wants[i]:
+                bad.append((i, j, got))
+                return
+    old = sys.getswitchinterval()
+    sys.setswitchinterval(1e-6)
+    try:
+        ths = [threading.Thread(target=work, args=(i,), daemon=True) for i in range(n)]
+        for t in ths:
+            t.start()
+        for t in ths:
+            t.join(120)
+    finally:
+        sys.setswitchinterval(old)
+    rec.count('mon.threaded_parse', n * iterations)
+    if bad:
+        i, j, got = bad[0]
+        rec.violation('concurrent-parse-mismatch', {'case': 'threads', 'queries': queries, 'combos': [list(c) for c in combos],
+                                                    'thread': i, 'iteration': j, 'got': got, 'want': wants[i]})
+        return True
+    return False
+
+
+def threaded_phase(rec, rounds):
+    rng = rec.rng
+    for _ in range(rounds):
+        queries, combos = [], []
+        for i in range(6):
+            fields = []
+            for _f in range(rng.randint(1, 3)):
+                raw = ''.join(rng.choice(['a', 'é', '€', ' ', '/', '+', '%', ',', '=', '&', chr(65 + i)])
+                              for _ in range(rng.randint(40, 300)))
+                val = MU.ref_encode(raw, True) + rng.choice(['', '%', '%zz', '%4', ',%2C'])
+                name = rng.choice(['k%d' % i, MU.ref_encode('n é%d' % i, True) * 3])
+                fields.append(name + '=' + val)
+            queries.append('&'.join(fields))
+            combos.append(rng.choice(COMBOS))
+        rec.case(('threads', tuple(queries)))
+        if threaded_round(rec, queries, combos):
+            break
+
 
 NON_UTF8 = [b'a=\xff', b'\xc3', b'a=%FF\xe9&b=1', b'\x80=1', b'a=1&b=\xed\xa0\x80', b'a=\xf8\x88\x80\x80\x80']
 
@@ -1041,6 +1148,7 @@ def run(rec):
     if rec.shard in (0, 1):
         rec.note('shard %d phase ends (s): strings %.1f escapes %.1f getter-table %.1f roundtrip-table %.1f fixed %.1f' % (
             rec.shard, t_exh, t_esc, t_tab, t_rt, rec.elapsed()))
+    threaded_phase(rec, 6 if rec.tier == 'quick' else 30)
     n = 0
     rounds = 0
     min_rounds = 5          # guaranteed part (count-sized); the budget only extends it
@@ -1084,6 +1192,10 @@ def run(rec):
     rec.floor('mon.request.ws', 1500)
     rec.floor('mon.request.direct_wsgi', 300)
     rec.floor('mon.request.direct_asgi', 300)
+    for f in DEFAULTED:
+        rec.floor('mon.request.' + f, 300)
+    rec.floor('cls.defaults_after_foreign_reconfiguration', 1000)
+    rec.floor('mon.threaded_parse', 500)
     rec.floor('mon.has_param', 3000)
     rec.floor('mon.response', 3000)
     rec.floor('mon.roundtrip.render', 2000)
@@ -1138,9 +1250,23 @@ def replay(rec, w):
         if wit.get('prev_jcfg'):
             # the same live Handlers object was configured differently for the previous request
             harness().run(wit['flavor'], '' if wit['flavor'] == 'wsgi' else b'', True, False, [], [], jcfg=wit['prev_jcfg'])
-        check_request(rec, wit['flavor'], query, wit['kb'], wit['csv'], wit['program'], drop_key=wit.get('drop_key', False),
-                      jcfg=wit.get('jcfg', 'stock'))
+        kb, csv, jcfg = wit['kb'], wit['csv'], wit.get('jcfg', 'stock')
+        if wit['flavor'] in DEFAULTED:
+            kb, csv, jcfg = wit['leak']
+            pl = wit.get('prev_leak')
+            if pl:      # what had been configured on another object before this request
+                if wit['flavor'].startswith('noopt_'):
+                    harness().run(wit['flavor'], '' if wit['flavor'].endswith('wsgi') else b'', True, False, [], [], leak=pl)
+                else:
+                    harness().run('wsgi' if wit['flavor'] == 'app2_wsgi' else 'asgi',
+                                  '' if wit['flavor'] == 'app2_wsgi' else b'', pl[0], pl[1], [], [], jcfg=pl[2])
+        check_request(rec, wit['flavor'], query, kb, csv, wit['program'], drop_key=wit.get('drop_key', False), jcfg=jcfg)
         rec.case(('req', wit['flavor'], repr(query)))
+    elif case == 'threads':
+        rec.case(('threads', tuple(wit['queries'])))
+        for _ in range(20):
+            if threaded_round(rec, wit['queries'], [tuple(c) for c in wit['combos']]):
+                break
     elif case == 'roundtrip':
         check_roundtrip(rec, wit['d'], wit['cdl'], wit['prefix'], wit.get('wrap', 'dict'))
         rec.case(('rt', repr(wit['d'])))
